@@ -89,7 +89,11 @@ Inductive sop :=
 | SPutDDoc (coll ddoc : string) (views : list (string * N))   (* PutDDoc: view name -> map function of the family *)
 | SDelDDoc (coll ddoc : string)
 | SView (coll ddoc view : string) (p : vparams)
-| SExpire.                       (* the expiry timer fires (bucket.doExpiration) *)
+| SExpire                        (* the expiry timer fires (bucket.doExpiration) *)
+| SDraw (coll key : string) (op : kop) (b : N).
+                                 (* the compare-and-swap loop of the call `op` that follows (Update, WriteUpdateWithXattrs,
+                                    sub-document writes) began b transactions in all: those beyond what the call itself
+                                    accounts for were failed attempts, rolled back, each having consumed one timestamp *)
 
 Record sres := mkSres {
   sr_store : store;
@@ -386,6 +390,12 @@ Definition same_ddoc (cid : N) (ddoc : string) (views : list (string * N)) (vs :
 
 Definition marker (op : fopcode) : fevent := mkFevent op "" "" [] false false 0 0 0 0.
 
+Definition attempts_extra (s : store) (x : sctx) (coll key : string) (op : kop) (b : N) : N :=
+  match coll_id s coll with
+  | Some cid => b - kr_draws (kstep (mkCtx (x_now x) (hlc_now (s_high s) (x_clock x)) (x_maxdoc x)) op (get_doc s (cid, key)))
+  | None => 0
+  end.
+
 Definition sstep (s : store) (x : sctx) (o : sop) : sres :=
   match o with
   | SKv coll key op =>
@@ -466,6 +476,11 @@ Definition sstep (s : store) (x : sctx) (o : sop) : sres :=
   | SExpire =>
       let '(s', evs) := expire_colls s x (map fst (s_colls s)) [] in
       mkSres s' ROk evs []
+  | SDraw coll key op b =>
+      let n := attempts_extra s x coll key op b in
+      mkSres (mkStore (s_docs s) (s_colls s) (s_nextcoll s) (s_lastcas s)
+                      (if n =? 0 then s_high s else hlc_now (s_high s) (x_clock x) + (n - 1))
+                      (s_log s) (s_views s)) ROk [] []
   end.
 
 (* ------------------------------------------------------------------------------------------ *)
